@@ -44,12 +44,23 @@ pub fn run_one(b: u64, kind: &str, labels: &[String], seed: u64) -> Value {
     };
     let labels2: Vec<String> = labels.to_vec();
     let kind2 = kind.to_string();
+    // every third run: the Byzantine responders first make the victim believe that ITS public address is the address of
+    // responder 0 (address votes are unauthenticated) and "confirm" it with a ping from there (so is the self-ping check)
+    let hijack = b % 3 == 1;
+    let x_addr = SocketAddrV4::new(fake_ip(0), 6881);
+    let nodes2 = nodes.clone();
     let salt2 = salt.clone();
     let policy: Policy = Box::new(move |me, m, w| {
         let q = m.q.clone().unwrap_or_default();
         // kind mutable_via_peers: the lookup on the item's target is a get_peers lookup (the target doubles as a swarm id); its
         // responders answer with get-mutable-shaped responses, and a get_mutable caller JOINS that lookup
         if !(q == "get" || q == "get_signed_peers" || (q == "get_peers" && kind2 == "mutable_via_peers")) {
+            if hijack && q == "find_node" {
+                // every responder tells the victim that its public address is X, the address of responder 0
+                let mut r = B::dict();
+                r.set("nodes", B::bytes(&nodes2));
+                return Reply::One(krpc::response(&m.tid, &me.id, r, Some(&x_addr)), 5);
+            }
             return Reply::Default;
         }
         if me.idx >= labels2.len() {
@@ -162,6 +173,11 @@ pub fn run_one(b: u64, kind: &str, labels: &[String], seed: u64) -> Value {
     let net = FakeNet::install(&mut sim, &ids, policy);
     let c = sim.add_node(NodeOpts::client(private_ip(4), &net.bootstrap()));
     sim.run_for(2000);
+    if hijack {
+        let victim = sim.nodes[c].addr;
+        sim.inject(x_addr, victim, krpc::ping(0x7001, &ids[0], false).encode(), 1);
+        sim.run_for(100);
+    }
     let gk = match kind {
         "immutable" => GetKind::Immutable,
         "signed_peers" => GetKind::SignedPeers,
@@ -202,7 +218,7 @@ pub fn run_one(b: u64, kind: &str, labels: &[String], seed: u64) -> Value {
         }
     }
     let n_auth = labels.iter().filter(|l| *l == "authentic" || *l == "long_authentic").count();
-    json!({"e":"lookup","b":b,"kind":kind,"labels":labels,"yielded":yielded,"done":done,"panicked":sim.nodes[c].panicked,
+    json!({"e":"lookup","b":b,"kind":kind,"hijacked_address":hijack,"labels":labels,"yielded":yielded,"done":done,"panicked":sim.nodes[c].panicked,
         "authentic_responders":n_auth,"items":call.items.len(),"joiner_items":joined_items})
 }
 
